@@ -519,6 +519,29 @@ func main() {
 		c.DistinctEnum(cnt)
 		c.Count("ipv4_addresses", cnt)
 	})
+	// (8) the same oracles from many goroutines at once: these are pure functions, so concurrent
+	// callers on unrelated inputs must get the same answers (a shared scratch buffer, a cached
+	// result or a pooled object would show here and nowhere in the sequential sections)
+	c.ParallelCases("concurrent-purity", c.N(8*16, 64*16), 8, func(i int, r *vlib.Rand) {
+		const per = 6000
+		for k := 0; k < per; k++ {
+			hexaOne(r.I64())
+			check64(r.I32(), r.I32(), r.I64())
+			ipOne(r.U32())
+			if k%8 == 0 {
+				checkHashOne(r.Bytes(r.Range(1, 120)), "parallel")
+			}
+			if k%4 == 0 {
+				v := r.U64()
+				if got := hll.MurmurHashLong(v); got != refMurmurLong(v) {
+					c.Failf("MurmurHashLong:differs-from-reference", map[string]uint64{"input": v}, "got %d ref %d (concurrent callers)", got, refMurmurLong(v))
+				}
+			}
+		}
+		c.Eval(per - 1)
+		c.DistinctEnum(1)
+		c.Count("concurrent_purity_calls", 4*per)
+	})
 	c.Sample(map[string]interface{}{"kind": "ipv4", "int": int32(-1062731775), "text": iputil.ToStringInt(-1062731775)})
 	c.Floor("hash_inputs_random", int64(c.N(20000, 400000)/10/c.NShards), c.Counter("hash_inputs_random"))
 	c.Finish()
